@@ -137,6 +137,9 @@ type IntervalResult struct {
 	AtHeader map[*ssa.BasicBlock]Itv
 	// AtStep: interval of the quantity's *current value* immediately before each step selected by observe
 	AtStep map[*ir.Step]Itv
+	// Feasible: the segments on which, for some interval the fixpoint iteration reached at their start, every branch
+	// was consistent with the quantity's interval. A segment that is not in the map cannot be executed.
+	Feasible map[*ir.Path]bool
 }
 
 // Quantity describes the integer quantity being tracked.
@@ -313,7 +316,7 @@ func ConstQuantity(t *ir.Term) Quantity {
 // runIntervals computes the interval of the quantity at every cut point and
 // immediately before every observed step, from the entry interval init.
 func runIntervals(an *ir.Analysis, init Itv, q Quantity, observe func(s *ir.Step) bool) *IntervalResult {
-	res := &IntervalResult{AtHeader: map[*ssa.BasicBlock]Itv{}, AtStep: map[*ir.Step]Itv{}}
+	res := &IntervalResult{AtHeader: map[*ssa.BasicBlock]Itv{}, AtStep: map[*ir.Step]Itv{}, Feasible: map[*ir.Path]bool{}}
 	start := map[*ssa.BasicBlock]Itv{nil: init}
 	for _, h := range an.Headers {
 		start[h] = Itv{1, 0}
@@ -357,6 +360,9 @@ func runIntervals(an *ir.Analysis, init Itv, q Quantity, observe func(s *ir.Step
 						break
 					}
 				}
+			}
+			if feasible {
+				res.Feasible[p] = true
 			}
 			if !feasible || p.To == nil {
 				continue
